@@ -11,5 +11,6 @@ EV=evidence/$P.json; cp $EV /tmp/seedwt/$P.evidence.bak 2>/dev/null
 GOOM_REPO=$WT VERIF_BUILD=/verif/build/seed-$P timeout 3000 python3 check.py $P --tier $TIER; rc=$?
 cp /tmp/seedwt/$P.evidence.bak $EV 2>/dev/null
 git -C $WT checkout -q -- . ; git -C $WT clean -fdq
+git -C /verif checkout -- lean/GoomVerif/Gen 2>/dev/null
 echo "try_seed rc=$rc"
 exit $rc
